@@ -820,7 +820,27 @@ def preserves(src, out, mini):
     dt_out, top_out = plain_parse(out)
     if (dt_in or None) != (dt_out or None):
         return ('doctype', 'doctype %r became %r' % (dt_in, dt_out))
-    return compare_blocks(top_in, top_out, False, '', mini)
+    r = compare_blocks(top_in, top_out, False, '', mini)
+    if r is not None:
+        return r
+    # anchor outside the library: every start tag of the input (as the stdlib tokenizer reports it) becomes one element, in
+    # document order, whose attributes are those written in the input (C02's independent intake reference) — two parses by
+    # the same library that are wrong alike would otherwise pass
+    from . import c02
+    starts = [t for t in tokens(src) if t[0] in ('s', 'se') and t[1] != WRAPPER]
+
+    def elements(blocks):
+        for b in blocks:
+            if is_tag(b):
+                yield b
+                for x in elements(b.blocks):
+                    yield x
+    els = list(elements(top_out))
+    if len(els) == len(starts) and all(t[1].isascii() and all(k.isascii() for k, _ in t[2]) for t in starts):
+        for t, e in zip(starts, els):
+            if e.tagName == t[1] and not c02.attrs_match(c02.spec_attrs([tuple(a) for a in t[2]]), e.getAttributesList(), loose_bool=True):
+                return ('attributes', '<%s>: the input has %r, the output parses to %r' % (t[1], t[2], e.getAttributesList()))
+    return None
 
 
 class Check(PropCheck):
